@@ -664,7 +664,7 @@ func suites(tier string) []hlib.Suite {
 	if tier == "quick" {
 		return []hlib.Suite{rateStrings(6), rateStringsWide(4), peakRateSuite(), stagesStrings(6), cliSuite(false), yamlSuite(true), yamlBytes(2)}
 	}
-	return []hlib.Suite{rateStrings(7), rateStringsWide(5), peakRateSuite(), stagesStrings(7), cliSuite(true), yamlSuite(true), yamlBytes(3)}
+	return []hlib.Suite{rateStrings(8), rateStringsWide(6), peakRateSuite(), stagesStrings(8), cliSuite(true), yamlSuite(true), yamlBytes(3)}
 }
 
 func main() { hlib.EnumMain("C14", suites) }
